@@ -224,6 +224,12 @@ static __attribute__((noinline)) int guarded_call(gcall_t *g)
     if (__atomic_load_n(&me->step, __ATOMIC_SEQ_CST) != my_step)
         CTXV("ctx:stale-resume", "worker %d resumed after %s at switch #%llu, but its latest switch is #%llu", me->id,
              op_name[g->op], (unsigned long long)my_step, (unsigned long long)me->step);
+    {
+        ABT_thread_state own = ABT_THREAD_STATE_RUNNING;
+        if (me->th != ABT_THREAD_NULL && ABT_thread_get_state(me->th, &own) == ABT_SUCCESS && own != ABT_THREAD_STATE_RUNNING)
+            CTXV("ctx:running-unit-state", "worker %d runs after %s, but ABT_thread_get_state reports %d for it", me->id,
+                 op_name[g->op], (int)own);
+    }
     if (me->ctl.mask)
         CTXV("ctx:callee-saved-register", "worker %d after %s: callee-saved registers changed (mask 0x%llx: 1=rbx 2=rbp 4=r12 "
              "8=r13 16=r14 32=r15)", me->id, op_name[g->op], (unsigned long long)me->ctl.mask);
